@@ -2,7 +2,7 @@
 (* Trace validation for scenario "aw" of the conformance harness (scheme: see UniqueCore_Trace). *)
 EXTENDS Await, Json, IOUtils
 
-VARIABLES l, seen, drift, omap
+VARIABLES l, seen, drift, omap, kk    \* kk = number of coroutines of the current execution
 
 T == ndJsonDeserialize(IOEnv.TRACE)
 
@@ -25,12 +25,16 @@ See(p, obs) == seen \o [i \in 1..Len(obs) |-> [p |-> p, k |-> obs[i].k, v |-> ob
 Par(t, k, d) == IF k \in DOMAIN t.params THEN t.params[k] ELSE d
 ScenOf(t) == [form |-> Par(t, "form", "await"), n |-> IF Par(t, "n", "1") = "2" THEN 2 ELSE 1,
               outs |-> Chars(Par(t, "outs", "v")), exec |-> Par(t, "exec", "here")]
+\* awaiting a SharedFuture (one or several coroutines on the same one) is not modelled at operation level (the shared
+\* state's own protocol is SharedCore.tla): such executions are judged by the abstract monitors only, from the start
+Modelled(t) == Par(t, "form", "await") # "sfut"
+KOf(t) == IF Par(t, "k", "1") = "2" THEN 2 ELSE 1
 
 TInit ==
   /\ TLCSet(1, {}) /\ TLCSet(2, 1) /\ TLCSet(3, {})
   /\ T[1].e = "begin"
   /\ InitScen(ScenOf(T[1]))
-  /\ l = 2 /\ seen = <<>> /\ drift = FALSE /\ omap = <<>>
+  /\ l = 2 /\ seen = <<>> /\ drift = ~Modelled(T[1]) /\ omap = <<>> /\ kk = KOf(T[1])
 
 Conform(t) ==
   /\ Step
@@ -43,55 +47,65 @@ TOp ==
   /\ omap' = Bind(omap, ev'.o, T[l].o)[2]
   /\ Note(ev', T[l])
   /\ seen' = See(T[l].p, T[l].obs)
-  /\ l' = l + 1 /\ Progress(l') /\ UNCHANGED drift
+  /\ l' = l + 1 /\ Progress(l') /\ UNCHANGED <<drift, kk>>
 
 \* the root drops the coroutine's future at the end: a frame that was never resumed is destroyed there
 TRobs ==
   /\ l <= Len(T) /\ T[l].e = "robs"
-  /\ UNCHANGED <<vars, drift, omap>>
+  /\ UNCHANGED <<vars, drift, omap, kk>>
   /\ seen' = See("root", T[l].obs)
   /\ l' = l + 1 /\ Progress(l')
 
 TDrift ==
   /\ l <= Len(T) /\ T[l].e = "op"
   /\ drift \/ ~ENABLED Conform(T[l])
-  /\ drift' = TRUE /\ NoteDrift(l)
+  /\ drift' = TRUE /\ (IF scen.form # "sfut" THEN NoteDrift(l) ELSE TRUE)
   /\ seen' = See(T[l].p, T[l].obs)
-  /\ UNCHANGED <<vars, omap>>
+  /\ UNCHANGED <<vars, omap, kk>>
   /\ l' = l + 1 /\ Progress(l')
 
 TEnd ==
   /\ l <= Len(T) /\ T[l].e = "end"
   /\ drift' = (drift \/ ~Quiescent)
   /\ IF drift' /\ ~drift THEN NoteDrift(l) ELSE TRUE
-  /\ UNCHANGED <<vars, seen, omap>>
+  /\ UNCHANGED <<vars, seen, omap, kk>>
   /\ l' = l + 1 /\ Progress(l')
 
 TBegin ==
   /\ l <= Len(T) /\ T[l].e = "begin"
   /\ ResetScen(ScenOf(T[l]))
-  /\ seen' = <<>> /\ drift' = FALSE /\ omap' = <<>>
+  /\ seen' = <<>> /\ drift' = ~Modelled(T[l]) /\ omap' = <<>> /\ kk' = KOf(T[l])
   /\ l' = l + 1 /\ Progress(l')
 
 TNext == TOp \/ TRobs \/ TDrift \/ TEnd \/ TBegin
-TSpec == TInit /\ [][TNext]_<<vars, l, seen, drift, omap>>
+TSpec == TInit /\ [][TNext]_<<vars, l, seen, drift, omap, kk>>
 
 NoRace == MM!NoRace(mm)
 
 \* ---------------- abstract monitor of C13 (observations only) ----------------
 Count(k) == Len(SelectSeq(seen, LAMBDA s : s.k = k))
-\* resumed at most once, and what it saw is the outcome of everything it awaited (so all of it had happened)
-AbsResumedOnce == Count("resumed") <= 1 /\ Count("local_dtor") <= 1
-AbsOutcome == \A n \in 1..Len(seen) : seen[n].k = "resumed" => seen[n].v = FullOutcome(1)
-\* resumption through the named executor: sticky / on announce "submitted" right before "resumed" (unless nothing had to be awaited)
+SharedForm == scen.form = "sfut"
+\* what coroutine id reports when it resumes from the SharedFuture
+SharedOutcome(id) == S(id) \o ":" \o OutDesc(1)
+CountV(k, v) == Len(SelectSeq(seen, LAMBDA s : s.k = k /\ s.v = v))
+\* resumed at most once (per coroutine), and what it saw is the outcome of everything it awaited (so all of it had happened)
+AbsResumedOnce == IF SharedForm THEN \A id \in 1..kk : CountV("resumed", SharedOutcome(id)) <= 1
+                  ELSE Count("resumed") <= 1 /\ Count("local_dtor") <= 1
+AbsOutcome == \A n \in 1..Len(seen) : seen[n].k = "resumed" =>
+                 IF SharedForm THEN \E id \in 1..kk : seen[n].v = SharedOutcome(id) ELSE seen[n].v = FullOutcome(1)
+\* AwaitOn always goes through the named executor: the coroutine continues right after the executor announced the job
+AbsOnExecutor == scen.form = "on" => \A n \in 1..Len(seen) : seen[n].k = "resumed" => n > 1 /\ seen[n - 1].k = "submitted"
 AbsRejected == \A n \in 1..Len(seen) : seen[n].k = "rejected" => Rejectable
 AbsNoResumeAfterReject == Count("rejected") > 0 => Count("resumed") = 0
 AbsEndOK(t) ==
   /\ t.status = "ok"
-  /\ Count("local_dtor") = 1
-  /\ t.final.locals = "1" /\ t.final.locals_live = "0" /\ t.final.live = "0"
-  /\ \/ Count("resumed") = 1 /\ Count("rejected") = 0 /\ t.final.result = "v7"
-     \/ Count("resumed") = 0 /\ Count("rejected") = 1 /\ t.final.result = "stop"
+  /\ Count("local_dtor") = kk
+  /\ t.final.locals = S(kk) /\ t.final.locals_live = "0" /\ t.final.live = "0"
+  /\ IF SharedForm
+       THEN /\ \A id \in 1..kk : CountV("resumed", SharedOutcome(id)) = 1
+            /\ t.final.result = "v7" /\ (kk = 2 => "result2" \in DOMAIN t.final /\ t.final.result2 = "v7")
+       ELSE \/ Count("resumed") = 1 /\ Count("rejected") = 0 /\ t.final.result = "v7"
+            \/ Count("resumed") = 0 /\ Count("rejected") = 1 /\ t.final.result = "stop"
 AbsEnd == (l > 1 /\ l - 1 <= Len(T) /\ T[l - 1].e = "end") => AbsEndOK(T[l - 1])
 
 Accepted ==
